@@ -269,7 +269,7 @@ pub fn execute(plan: &Plan, trace: bool) -> Exec {
         }
         Some(Ok(x)) => x,
     };
-    ex.probe("accept_calls_cancelled", cancels);
+    ex.fault("app_calls_cancelled_and_reissued", cancels);
     ex.probe("streams_opened", bag.opened.len() as u64);
     ex.nontrivial = !bag.opened.is_empty() && (!faulty || ex.net.faults_fired() > 0);
     let lost_conn = open_errors.iter().any(|e| e.contains("NotConnected") || e.contains("TimedOut")) || bag.read.iter().any(|(_, r)| matches!(r, Err(e) if e.contains("NotConnected")));
